@@ -92,6 +92,11 @@ func toNumber(v any) any {
 		uint:
 		return v
 	case string:
+		if v == "" || v == "null" {
+			// UnmarshalJSON treats these as "no value" and reports no error
+			return nil
+		}
+
 		var d decimal128.Decimal
 		if err := d.UnmarshalJSON([]byte(v)); err != nil {
 			return nil
